@@ -106,9 +106,9 @@ func (r *getRequest) executeHandler() {
 			}
 			str = e.Message
 		case error:
-			str = e.Error()
+			str = errorString(e)
 			if !r.replied {
-				r.Error(ToError(e))
+				r.Error(InternalError(errors.New(str)))
 			}
 		case string:
 			str = e
